@@ -293,5 +293,77 @@ theorem lookup_after_add {s s' : Snap} {n syn : Node} {f2o : SlotMap} {data : St
   refine ⟨(composePartial (inverse bij2) bij).filter (fun p => (keys f2o).contains p.1), findSome_append_new _ _ _ hmiss ?_⟩
   simp only [List.find?_cons, hguard]
 
+/-- **known terms stay known**: a node that `lookup` found before the insertion is found afterwards, with the same result -/
+theorem lookup_survives_add {s s' : Snap} {n m syn : Node} {f2o : SlotMap} {data : String} {a x : AppId}
+    (hw : UfWF s) (hids : ∀ c ∈ s.classes, c.id ≠ s.uf.length)
+    (h : addNew s n f2o syn data = some (s', a)) (hl : lookup s m = some x) : lookup s' m = some x := by
+  obtain ⟨sh, sh2, bij, bij2, gens, hs, ha, _, _, _, _, _⟩ := addNew_form h
+  unfold lookup at hl ⊢
+  cases hsm : shape s m with
+  | none => rw [hsm] at hl; simp at hl
+  | some p =>
+    obtain ⟨shm, bijm⟩ := p
+    rw [hsm] at hl
+    have hshape' : shape s' m = some (shm, bijm) :=
+      shape_ext hw (fun b r hb => find_survives_add h hb) (fun j hj => cls_survives_add h (Nat.ne_of_lt hj)) hsm
+    rw [hshape']
+    simp only at hl ⊢
+    rw [hs]
+    unfold lookupShape at hl ⊢
+    unfold setNew allocClass
+    simp only [List.map_append, List.map_cons, List.map_nil, beq_self_eq_true, if_true]
+    rw [map_id_of_ne _ _ _ hids, List.findSome?_append, hl]
+    rfl
+
+/-- the part of the state invariant the theorems about insertions need: a well-formed table, no class id beyond it -/
+def AddOK (s : Snap) : Prop := UfWF s ∧ ∀ c ∈ s.classes, c.id < s.uf.length
+
+theorem addOK_ids {s : Snap} (h : AddOK s) : ∀ c ∈ s.classes, c.id ≠ s.uf.length :=
+  fun c hc => Nat.ne_of_lt (h.2 c hc)
+
+/-- an insertion keeps it -/
+theorem addOK_add {s s' : Snap} {n syn : Node} {f2o : SlotMap} {data : String} {a : AppId}
+    (hok : AddOK s) (h : addNew s n f2o syn data = some (s', a)) : AddOK s' := by
+  obtain ⟨sh, sh2, bij, bij2, gens, hs, _⟩ := addNew_form h
+  have huf := addNew_uf h
+  refine ⟨?_, ?_⟩
+  · intro e he
+    rw [huf, List.mem_append] at he
+    rcases he with he | he
+    · exact hok.1 e he
+    · simp only [List.mem_singleton] at he
+      subst he; exact wf_identity _
+  · intro c hc
+    rw [huf, List.length_append, List.length_singleton]
+    rw [hs] at hc
+    unfold setNew allocClass at hc
+    simp only [List.mem_map, List.mem_append, List.mem_singleton] at hc
+    obtain ⟨d, hd, rfl⟩ := hc
+    have hdid : d.id < s.uf.length + 1 := by
+      rcases hd with hd | hd
+      · exact Nat.lt_succ_of_lt (hok.2 d hd)
+      · subst hd; exact Nat.lt_succ_self _
+    split <;> exact hdid
+
+/-- any number of insertions, one after the other -/
+inductive Inserts : Snap → Snap → Prop
+  | refl (s : Snap) : Inserts s s
+  | step {s s' s'' : Snap} {n syn : Node} {f2o : SlotMap} {data : String} {a : AppId}
+      (h : addNew s n f2o syn data = some (s', a)) (rest : Inserts s' s'') : Inserts s s''
+
+/-- **for every sequence of insertions**: the invariant is kept, every old handle resolves as before, `eq` on old handles
+answers as before, every node that was represented stays represented by the same invocation -/
+theorem inserts_preserve {s s'' : Snap} (hok : AddOK s) (hi : Inserts s s'') :
+    AddOK s'' ∧ (∀ b r, find s b = some r → find s'' b = some r) ∧
+    (∀ b c r, eq s b c = some r → eq s'' b c = some r) ∧
+    (∀ m x, lookup s m = some x → lookup s'' m = some x) := by
+  induction hi with
+  | refl s => exact ⟨hok, fun _ _ h => h, fun _ _ _ h => h, fun _ _ h => h⟩
+  | step h _ ih =>
+    obtain ⟨hok'', hf, he, hl⟩ := ih (addOK_add hok h)
+    exact ⟨hok'', fun b r hb => hf b r (find_survives_add h hb),
+      fun b c r hb => he b c r (eq_survives_add hok.1 h hb),
+      fun m x hm => hl m x (lookup_survives_add hok.1 (addOK_ids hok) h hm)⟩
+
 end Snap
 end SV
